@@ -20,6 +20,7 @@ import sys
 import time
 
 VERIF = os.path.dirname(os.path.dirname(os.path.abspath(__file__)))
+TAG = ''
 
 
 def sh(cmd, cwd=None, env=None, timeout=3600):
@@ -35,8 +36,13 @@ def main():
     props = [pid]
     if '--also' in sys.argv:
         props += sys.argv[sys.argv.index('--also') + 1].split(',')
-    wt = '/scratch/seed/%s/repo' % pid
-    out = '/scratch/seed/%s/out' % pid
+    root = '/scratch/seed'
+    if '--root' in sys.argv:
+        root = sys.argv[sys.argv.index('--root') + 1]
+    global TAG
+    TAG = sys.argv[sys.argv.index('--tag') + 1] if '--tag' in sys.argv else ''
+    wt = '%s/%s/repo' % (root, pid)
+    out = '%s/%s/out' % (root, pid)
     patch = os.path.join(out, 'patch%s.diff' % n)
     demo = os.path.join(out, 'demo%s.py' % n)
     env = dict(os.environ, OMP_NUM_THREADS='1', OPENBLAS_NUM_THREADS='1', TQDM_DISABLE='1', PYTHONPATH=wt,
@@ -46,12 +52,15 @@ def main():
     rc, o = sh('git status --short', cwd=wt)
     if o.strip():
         sh('git checkout -- . && git clean -fdq', cwd=wt)
+    # judge the change on top of the CURRENT /repo HEAD (fix commits made after the change was written included)
+    head = subprocess.check_output('git -C /repo rev-parse HEAD', shell=True).decode().strip()
+    sh('git checkout -q -f --detach %s' % head, cwd=wt)
     base = subprocess.check_output('git rev-parse --short HEAD', shell=True, cwd=wt).decode().strip()
     meta['worktree_commit'] = base
     t0 = time.time()
     rc0, o0 = sh('timeout 600 /venv/bin/python %s' % demo, cwd=out, env=env)
     meta['demo_exit_unmodified'] = rc0
-    rc, o = sh('git apply %s' % patch, cwd=wt)
+    rc, o = sh('git apply %s || git apply --3way %s' % (patch, patch), cwd=wt)
     if rc != 0:
         meta['error'] = 'patch does not apply: ' + o[-500:]
         return finish(meta, pid, n, patch, demo, out)
@@ -84,7 +93,7 @@ def main():
 
 
 def finish(meta, pid, n, patch, demo, out):
-    d = os.path.join(VERIF, 'seeded', '%s-%s' % (pid, n))
+    d = os.path.join(VERIF, 'seeded', '%s-%s%s' % (pid, TAG, n))
     os.makedirs(d, exist_ok=True)
     shutil.copy(patch, os.path.join(d, 'patch.diff'))
     if os.path.exists(demo):
